@@ -54,6 +54,8 @@ type World struct {
 	astSites      map[string][]astCallSite
 	newParams     map[types.Object]newParam
 	constTbl      map[*types.Var]*constTable
+	astCtx        []astFrame
+	curHost       string
 }
 
 type FuncInfo struct {
@@ -244,7 +246,14 @@ func (w *World) pos(p token.Pos) string {
 	return fmt.Sprintf("%s:%d", rel, pp.Line)
 }
 
-func (w *World) fn(key string) *FuncInfo { return w.Funcs[key] }
+// fn: the function of that name; for the joined name of a new helper shared by several
+// reviewed functions ("a|b"), the first of them.
+func (w *World) fn(key string) *FuncInfo {
+	if fi := w.Funcs[key]; fi != nil || !strings.Contains(key, "|") {
+		return fi
+	}
+	return w.Funcs[hostParts(key)[0]]
+}
 
 // pkg returns a gleece package by its path relative to the module root ("" for root).
 func (w *World) pkg(rel string) *packages.Package {
